@@ -340,6 +340,16 @@ func genCase(seed int64, nOps int, profile string) (res *caseResult, err error) 
 	}
 	for i := 0; i < nOps; i++ {
 		if i == rollbackAt {
+			// half of the time right after a restart (18b7c7d: the rollback target is then the loaded
+			// root, never an empty tree)
+			if rng.Intn(2) == 0 {
+				if err := g.closeAllSnaps(); err != nil {
+					return nil, err
+				}
+				if err := g.do(Op{Kind: "reopen"}); err != nil {
+					return nil, err
+				}
+			}
 			// make sure something is unflushed, then a batch the tree itself rejects
 			if err := g.do(g.insertOp(false)); err != nil {
 				return nil, err
@@ -418,9 +428,59 @@ func genCase(seed int64, nOps int, profile string) (res *caseResult, err error) 
 	return x.result(profile), nil
 }
 
+// probeCases: the exact inputs of the two repaired defects, run first on every check
+func probeCases() ([]*caseResult, error) {
+	cfg := Cfg{MaxNode: 128, MaxKey: 8, MaxVal: 8, FlushThld: 100000, SyncThld: 1000000, MaxBuf: 1 << 22,
+		CompThld: 1, MaxSnaps: 10, Cache: 4096, FileSize: 1 << 20}
+	kv := func(k, v string, t uint64) Op {
+		return Op{Kind: "insert", Kvts: []KVT{{K: hs([]byte(k)), V: hs([]byte(v)), T: t}}}
+	}
+	scripts := map[string][]Op{
+		// e30fc04: GetBetween(b,1,3) returned a's value at ts 1
+		"probe/getbetween-chain-overrun": {kv("a", "A1", 1), kv("a", "A2", 2), {Kind: "flush"},
+			kv("b", "B5", 5), kv("b", "B6", 6), kv("b", "B7", 7), {Kind: "flush"},
+			{Kind: "between", Key: hs([]byte("b")), I: 1, F: 3}, {Kind: "between", Key: hs([]byte("b")), I: 0, F: 4},
+			{Kind: "snap", Snap: 1}, {Kind: "read", Snap: 1, Mode: "between", I: 1, F: 3}, {Kind: "snapclose", Snap: 1}},
+		// 18b7c7d: after a restart a rejected batch emptied the tree
+		"probe/rollback-after-reopen": {kv("a", "A1", 1), {Kind: "reopen"}, kv("c", "C2", 2),
+			{Kind: "insert", Kvts: []KVT{{K: hs([]byte("d")), V: hs([]byte("D9")), T: 9}, {K: hs([]byte("d")), V: hs([]byte("D8")), T: 8}}},
+			{Kind: "get", Key: hs([]byte("a"))}, {Kind: "ts"}, {Kind: "flush"}, {Kind: "reopen"},
+			{Kind: "get", Key: hs([]byte("a"))}, {Kind: "ts"}},
+	}
+	var out []*caseResult
+	for _, name := range []string{"probe/getbetween-chain-overrun", "probe/rollback-after-reopen"} {
+		x, err := newRunner(cfg)
+		if err != nil {
+			return nil, err
+		}
+		for _, o := range scripts[name] {
+			if err := x.exec(o); err != nil {
+				x.cleanup()
+				return nil, err
+			}
+		}
+		// the loaded content must still be there
+		if name == "probe/rollback-after-reopen" {
+			if v, _, _, err := x.t.Get([]byte("a")); err != nil || string(v) != "A1" {
+				x.viol = append(x.viol, fmt.Sprintf("after restart, an accepted insert and a rejected batch the loaded key a is gone (Get(a) = %q, %v): fixed by 18b7c7d", v, err))
+			}
+		}
+		out = append(out, x.result(name))
+		x.cleanup()
+	}
+	return out, nil
+}
+
 // Gen: n = number of cases.  Profiles: mixed (default), deep (minimal node size), adversarial
 // (malformed batches, refused timestamps), rollback (one tree-level rejection with unflushed data).
 func Gen(r *vk.Run, n int) error {
+	probes, err := probeCases()
+	if err != nil {
+		return fmt.Errorf("probe: %v", err)
+	}
+	for _, p := range probes {
+		p.emit(r)
+	}
 	long := os.Getenv("VERIF_TIER") == "thorough"
 	type job struct {
 		seed    int64
